@@ -9,10 +9,12 @@
   Model: MM/Model/C04.lean (symbolic).  The property is proved for a RELAYING transit (it forwards
   the open/ack frames it is given — the situation the statement describes: honest endpoints, frames
   relayed).  The stronger variant against a transit that REWRITES the ephemeral keys in open/ack is
-  stated as `C04_statement_active` and REFUTED (`C04_active_refuted_*`): no tunnel kind authenticates
-  the ephemeral keys (a transit can substitute its own), and for UDP/ICMP it does not even need a
-  key: zeroing the key field switches both honest ends to plaintext.  `C04_active_partial` is the
-  strongest true restriction.
+  stated as `C04_statement_active` and REFUTED (`C04_active_refuted_mitm`): no tunnel kind
+  authenticates the ephemeral keys, a transit can substitute its own.  `C04_active_partial` is the
+  strongest true restriction: a transit that can only forward or ZERO the key fields learns nothing,
+  for every kind — on the pinned tree that failed for UDP/ICMP (`C04_pinned_zero_key_downgrade`:
+  zeroing the key field switched both honest ends to plaintext), repaired by
+  fixes/C04-refuse-zero-ephemeral-key.patch.
 
   Tie: engine `c04` (harness/main/eng_c04.go): (1) unit level — real udp.Association / icmp.Session
   with and without a session key, agent.deriveICMPSessionKey / agent.deriveResponderSessionKey on a
@@ -26,6 +28,11 @@ namespace MM.C04
 /-- Both honest ends pick the same key behind a relaying transit (C03 in symbolic form). -/
 theorem C04_same_key (kd : Kind) (req : Nat) :
     decide kd .ingress true req (.pub .exit) = decide kd .exit false req (.pub .ingress) := rfl
+
+theorem wire_eq (kd : Kind) (t : Tamper) (req dest bound : Nat) (up down : List Nat) :
+    wire kd t req dest bound up down =
+      ingressFrames noFallback kd req dest t.rkSeenByIngress up ++
+      exitFrames noFallback kd req bound t.ikSeenByExit down := rfl
 
 theorem dataFrames_sealed (k : Term) (pfx : Nat) (cs : List Nat) (ctr : Nat) :
     ∀ f ∈ dataFrames (.sealWith k) pfx ctr cs, ∃ c n, f = ⟨.data, [.sealed k pfx n (.atom c)]⟩ := by
@@ -47,8 +54,9 @@ theorem C04_payload_sealed (kd : Kind) (req dest bound : Nat) (up down : List Na
     ∀ f ∈ wire kd passive req dest bound up down, f.typ = .data →
       ∃ c pfx n, f = ⟨.data, [.sealed (sessionKey req) pfx n (.atom c)]⟩ := by
   intro f hf hd
-  unfold wire ingressFrames exitFrames passive at hf
-  simp only [decide, dhT] at hf
+  rw [wire_eq] at hf
+  unfold ingressFrames exitFrames passive at hf
+  simp only [decideWith, dhT] at hf
   rcases List.mem_append.mp hf with h | h
   · rcases List.mem_cons.mp h with h | h
     · rw [h] at hd; cases hd
@@ -83,7 +91,8 @@ theorem C04_key_not_on_wire (kd : Kind) (t : Tamper) (req dest bound : Nat) (up 
         · exact ih (ctr + 1) f h x hx
       | refuse => simp only [dataFrames] at hf; cases hf
   intro f hf x hx
-  unfold wire ingressFrames exitFrames at hf
+  rw [wire_eq] at hf
+  unfold ingressFrames exitFrames at hf
   rcases List.mem_append.mp hf with h | h
   · rcases List.mem_cons.mp h with h | h
     · subst h
@@ -114,8 +123,9 @@ theorem C04_transit_reads_nothing (kd : Kind) (req dest bound : Nat) (up down : 
     subst hc
     rfl
   | openF =>
-    unfold wire ingressFrames exitFrames passive at hf
-    simp only [decide, dhT] at hf
+    rw [wire_eq] at hf
+    unfold ingressFrames exitFrames passive at hf
+    simp only [decideWith, dhT] at hf
     rcases List.mem_append.mp hf with h | h
     · rcases List.mem_cons.mp h with h | h
       · subst h; rfl
@@ -124,8 +134,9 @@ theorem C04_transit_reads_nothing (kd : Kind) (req dest bound : Nat) (up down : 
       · subst h; rfl
       · obtain ⟨c, n, hc⟩ := dataFrames_sealed _ _ _ _ f h; subst hc; cases hty
   | ack =>
-    unfold wire ingressFrames exitFrames passive at hf
-    simp only [decide, dhT] at hf
+    rw [wire_eq] at hf
+    unfold ingressFrames exitFrames passive at hf
+    simp only [decideWith, dhT] at hf
     rcases List.mem_append.mp hf with h | h
     · rcases List.mem_cons.mp h with h | h
       · subst h; rfl
@@ -147,24 +158,33 @@ def C04_statement_active : Prop :=
     ∀ (req dest bound : Nat) (up down : List Nat),
       ∀ f ∈ wire kd t req dest bound up down, visibleFrame [.transit] f = []
 
-/-- Refuted without any key: zero both key fields of a UDP tunnel and the datagrams of both honest
-    ends cross the transit in plaintext. -/
-theorem C04_active_refuted_zero_key : ¬ C04_statement_active := by
+/-- Refuted by key substitution (the ephemeral keys are not authenticated): the transit hands each
+    end its own public key and reads the TCP stream.  This is a property of the protocol, not of an
+    implementation slip; it is why the proved statement is about a relaying transit. -/
+theorem C04_active_refuted_mitm : ¬ C04_statement_active := by
   intro h
-  have := h .udp ⟨.zeroKey, .zeroKey⟩ (by decide) (by decide) 1 2 3 [7] [8]
-    ⟨.data, [.atom 7]⟩ (by decide)
-  cases this
+  have := h .tcp ⟨.pub .transit, .pub .transit⟩ (by decide) (by decide) 1 2 3 [7] [8]
+    ⟨.data, [.sealed (.kdf (.shared .ingress .transit) 1 (.pub .ingress) (.pub .transit)) 0 0 (.atom 7)]⟩
+    (by decide)
+  revert this
+  decide
 
-/-- Refuted for every kind by key substitution (the ephemeral keys are not authenticated): the
-    transit hands each end its own public key and reads the TCP stream. -/
-theorem C04_active_refuted_mitm :
-    ∃ f ∈ wire .tcp ⟨.pub .transit, .pub .transit⟩ 1 2 3 [7] [8], visibleFrame [.transit] f ≠ [] := by
-  refine ⟨⟨.data, [.sealed (.kdf (.shared .ingress .transit) 1 (.pub .ingress) (.pub .transit)) 0 0 (.atom 7)]⟩, by decide, by decide⟩
+/-- What the pinned tree did: with both key fields of a UDP tunnel zeroed — no key of its own
+    needed — the datagrams of both honest ends crossed the transit in plaintext. -/
+theorem C04_pinned_zero_key_downgrade :
+    ⟨.data, [.atom 7]⟩ ∈ wireWith fallbackV0 .udp ⟨.zeroKey, .zeroKey⟩ 1 2 3 [7] [8] ∧
+    ⟨.data, [.atom 8]⟩ ∈ wireWith fallbackV0 .udp ⟨.zeroKey, .zeroKey⟩ 1 2 3 [7] [8] ∧
+    visibleFrame [.transit] ⟨.data, [.atom 7]⟩ = [7] := by decide
+
+/-- The same tampering on the fixed code: no data frame at all (both ends refuse). -/
+theorem C04_fixed_zero_key_refused (kd : Kind) (req dest bound : Nat) (up down : List Nat) :
+    wire kd ⟨.zeroKey, .zeroKey⟩ req dest bound up down = [⟨.openF, [.const req, .const dest, .pub .ingress]⟩] := by
+  rw [wire_eq]
+  cases up <;> simp [ingressFrames, exitFrames, decideWith, noFallback, dataFrames]
 
 /-- Strongest true restriction: if the transit can only forward or ZERO the key fields (no key of its
-    own), the kinds that refuse a zero key (tcp, forward, shell, file) leak nothing — a zeroed key
-    stops the tunnel instead of downgrading it. -/
-theorem C04_active_partial (kd : Kind) (hk : kd.zeroKeyFallback = false) (t : Tamper)
+    own), NO tunnel kind leaks anything — a zeroed key stops the tunnel instead of downgrading it. -/
+theorem C04_active_partial (kd : Kind) (t : Tamper)
     (hi : t.ikSeenByExit = .pub .ingress ∨ t.ikSeenByExit = .zeroKey)
     (hr : t.rkSeenByIngress = .pub .exit ∨ t.rkSeenByIngress = .zeroKey)
     (req dest bound : Nat) (up down : List Nat) :
@@ -178,22 +198,23 @@ theorem C04_active_partial (kd : Kind) (hk : kd.zeroKeyFallback = false) (t : Ta
   intro f hf
   obtain ⟨ik, rk⟩ := t
   simp only at hi hr
-  unfold wire ingressFrames exitFrames at hf
+  rw [wire_eq] at hf
+  unfold ingressFrames exitFrames at hf
+  have hk : noFallback kd = false := rfl
   rcases List.mem_append.mp hf with h | h
   · rcases List.mem_cons.mp h with h | h
     · subst h; rfl
-    · rcases hr with hr | hr <;> subst hr <;> simp only [decide, hk, dhT] at h
+    · rcases hr with hr | hr <;> subst hr <;> simp only [decideWith, hk, dhT] at h
       · exact hseal _ _ _ _ rfl f h
       · cases up <;> simp [dataFrames] at h
-  · rcases hi with hi | hi <;> subst hi <;> simp only [decide, hk, dhT] at h
+  · rcases hi with hi | hi <;> subst hi <;> simp only [decideWith, hk, dhT] at h
     · rcases List.mem_cons.mp h with h | h
       · subst h; rfl
       · exact hseal _ _ _ _ rfl f h
     · simp at h
 
-/-- The two kinds with the plaintext fallback are exactly UDP and ICMP (what `C04_active_partial`
-    excludes). -/
-theorem C04_fallback_kinds : Kind.all.filter Kind.zeroKeyFallback = [.udp, .icmp] := by decide
+/-- The kinds that had the plaintext fallback on the pinned tree were exactly UDP and ICMP. -/
+theorem C04_pinned_fallback_kinds : Kind.all.filter fallbackV0 = [.udp, .icmp] := by decide
 
 /-! ### non-vacuity -/
 
